@@ -135,6 +135,45 @@ def run(ctx):
         r = random.Random(f"{ctx.seed}/c06/bytes/{i}")
         raw = bytes(r.choice([0xff, 0xfe, 0xc3, 0x28, 0x80, 0x41, 0x7b, 0x7d, 0x3b, 0x0a, 0x65, 0x3d]) for _ in range(r.choice([1, 4, 20])))
         todo.append({"files": {"/w/m.djinni": {"bytes_hex": raw.hex()}}, "root": "/w/m.djinni", "stream": "bytes", "mut": "raw-bytes"})
+    # realistic IDL text with multi-byte characters in its comments, damaged at one place (a stray byte, or a
+    # multi-byte character cut short) — in the root file or in an imported one: the position must count characters
+    for i in range(ctx.n(40, 400)):
+        r = random.Random(f"{ctx.seed}/c06/textbytes/{i}")
+        g = front.Gen(r, p_bad=0.0, max_decls=r.choice([1, 2, 4]), dup_names=False)
+        R = front.Render(r, 'min' if r.random() < 0.5 else 'random')
+        words = ["Größe", "déjà vu", "日本語のコメント", "π≈3", "naïve café", "😀 ok", "Ünïcödé", "текст"]
+        lines = R.join(R.program(g.program())).split("\n")
+        out = []
+        for ln in lines:
+            if r.random() < 0.5:
+                out.append("# " + " ".join(r.choice(words) for _ in range(r.choice([1, 2, 4]))))
+            if r.random() < 0.3 and ln.strip() and '"' not in ln:
+                ln = ln + " # " + r.choice(words)
+            out.append(ln)
+        raw = bytearray("\n".join(out).encode("utf-8"))
+        k = r.randrange(len(raw) + 1)
+        m = r.random()
+        if m < 0.5:
+            raw[k:k] = bytes([r.choice([0xff, 0xfe, 0x80, 0xbf, 0xc0, 0xf8])])
+        elif m < 0.8:
+            multi = [j for j in range(len(raw)) if raw[j] >= 0xc0]
+            if multi:
+                j = r.choice(multi)
+                del raw[j + 1]       # cut a multi-byte character short
+            else:
+                raw[k:k] = b"\xff"
+        else:
+            raw[k:k] = "é日😀".encode("utf-8") + b"\xe6\x97"
+        try:
+            bytes(raw).decode("utf-8")
+            continue
+        except UnicodeDecodeError:
+            pass
+        if r.random() < 0.3:
+            files = {"/w/m.djinni": '# äöü 日本\n@import "sub/i.djinni"\ne0 = enum { a; }', "/w/sub/i.djinni": {"bytes_hex": bytes(raw).hex()}}
+        else:
+            files = {"/w/m.djinni": {"bytes_hex": bytes(raw).hex()}}
+        todo.append({"files": files, "root": "/w/m.djinni", "stream": "bytes", "mut": "text-bad-byte"})
     # @extern files that are not text / not valid external-type YAML
     for i in range(ctx.n(8, 60)):
         r = random.Random(f"{ctx.seed}/c06/extern/{i}")
